@@ -141,7 +141,7 @@ func (s *pstate) clone() *pstate {
 }
 
 func (c *seeCtx) clone() *seeCtx {
-	n := &seeCtx{x: c.x, depth: c.depth, params: c.params, fvs: c.fvs, stack: c.stack, ps: c.ps,
+	n := &seeCtx{x: c.x, depth: c.depth, params: c.params, fvs: c.fvs, stack: c.stack, ps: c.ps, defAt: c.defAt,
 		active: map[ssa.Value]bool{}, memo: make(map[ssa.Value]*Expr, len(c.memo))}
 	for k, v := range c.memo {
 		n.memo[k] = v
@@ -167,6 +167,7 @@ func (pe *pathEnum) block(c *seeCtx, b, pred *ssa.BasicBlock, st *pstate, emit f
 				pe.over = true
 				return
 			}
+			c.defAt = pred.Instrs[len(pred.Instrs)-1]
 			emit(&Path{Atoms: st.atoms, Blocks: st.blocks, Cut: true, CutTo: b, CutFrom: pred, env: c})
 		}
 		return
@@ -296,6 +297,7 @@ func (pe *pathEnum) instrs(c *seeCtx, b *ssa.BasicBlock, i int, st *pstate, emit
 				return
 			}
 			p := &Path{Atoms: st.atoms, Ret: t, Blocks: st.blocks, env: c}
+			c.defAt = t
 			for _, r := range t.Results {
 				p.Results = append(p.Results, c.of(r))
 			}
